@@ -281,6 +281,7 @@ def run(out: Outcome) -> None:
         p = gen.rand_params(rng, "BOCD")
         p["min_num_instances"] = rng.choice([1, 2, 3])
         check(out, p, [rng.gauss(rng.choice([0, 2]), 1) for _ in range(9)], runners, enum=True)
+    check(out, {}, [rng.gauss(0, 1) for _ in range(45)] + [rng.gauss(4, 1) for _ in range(25)], runners)     # BOCD() with every default (configuration AND model)
     for _ in range(6 if thorough else 2):
         check_table_unread(out, gen.rand_params(rng, "BOCD"), [rng.gauss(0, 1) for _ in range(rng.randint(10, 45))] + [rng.gauss(3, 1) for _ in range(rng.randint(5, 30))])
     for _ in range(2 if thorough else 1):
